@@ -5,6 +5,7 @@ import (
 	"fmt"
 	"os"
 	"path/filepath"
+	"regexp"
 	"sort"
 	"strconv"
 
@@ -68,6 +69,7 @@ func check(args []string) int {
 			fmt.Printf("  cover:%-5s %-8s %6.2fs  %s\n", r.Status, r.Solver, r.Time, r.Cover.Name)
 		}
 	}
+	specs := gov.LoadReplaySpecs(filepath.Join(*verif, "replay"))
 	kf := gov.LoadKnownFindings(filepath.Join(*verif, "known-findings.jsonl"))
 	outDirV := filepath.Join(*verif, "out", prop)
 	nviol := 0
@@ -82,6 +84,16 @@ func check(args []string) int {
 			continue
 		}
 		nviol++
+		if r := resByName[v.Obligation]; r != nil && r.Status == "failed" {
+			for _, sp := range specs {
+				if ok, _ := regexp.MatchString(sp.Obligation, v.Obligation); ok {
+					ro := gov.RunReplay(sp, r, *repo, *verif, filepath.Join(outDirV, "replay"))
+					v.Replay = ro
+					v.HasInput = ro.Reproduced
+					break
+				}
+			}
+		}
 		path := gov.WriteReplay(outDirV, prop, v, resByName[v.Obligation])
 		suffix := ""
 		if !v.HasInput {
